@@ -1,7 +1,416 @@
-//! C06 – framing contract (stub; filled in below).
-use crate::run::*;
-use crate::zoo::ZooMsg;
+//! C06 – framing contract.  For a seeded value, *every* cut position of its wire image (the
+//! sender crashed after k bytes) and *every* short extension (the beginning of the next message,
+//! zeros, 0xFF, garbage) is one run: the contract is evaluated on `validate` itself and on what
+//! the real blocking / async receiver does with exactly those bytes.
 
-pub fn zoo_roundtrip<M: ZooMsg + ?Sized>(_n: u32) -> Result<(), String> { Ok(()) }
-pub fn expand(sc: &Scenario) -> Vec<Scenario> { vec![sc.clone()] }
-pub fn run_c06<M: ZooMsg + ?Sized>(sc: &Scenario, keep_log: bool) -> RunOutput { run_delivery::<M>(sc, keep_log) }
+use crate::backend::guarded;
+use crate::party::*;
+use crate::run::*;
+use crate::sched::{run_async, Task};
+use crate::tape::{Decider, St};
+use crate::val::{Gen, Val};
+use crate::world::*;
+use crate::zoo::ZooMsg;
+use flatty::error::ErrorKind;
+use flatty::AlignedBytes;
+use std::sync::{Arc, Mutex};
+
+/// Adapter self-test: generated values survive emplace -> deep read, and the read is not constant.
+pub fn zoo_roundtrip<M: ZooMsg + ?Sized>(n: u32) -> Result<(), String> {
+    let mut distinct: Vec<Val> = Vec::new();
+    let mut buf = AlignedBytes::new(8192, M::ALIGN.max(16));
+    for i in 0..n {
+        let mut d = Decider::from_seed(0xA11CE + i as u64);
+        let v = M::gen(&mut Gen::new(&mut d, St::Msgs, 6));
+        buf.fill(if i % 2 == 0 { 0 } else { 0xFF });
+        let r = guarded(|| M::emplace_val(&mut buf, &v).map(|m| (m.read(), m.size())));
+        match r {
+            Ok(Ok((back, size))) => {
+                if back != v {
+                    return Err(format!("round trip changed the value: {:?} -> {:?}", v, back));
+                }
+                if size > buf.len() {
+                    return Err(format!("size() {} exceeds the buffer", size));
+                }
+                if !distinct.contains(&back) {
+                    distinct.push(back);
+                }
+            }
+            Ok(Err(e)) => return Err(format!("emplace of {:?} failed in a 8 KiB buffer: {:?}", v, e)),
+            Err(c) => return Err(format!("panic while emplacing/reading {:?}: {}", v, c.describe())),
+        }
+    }
+    if distinct.len() < 2 {
+        return Err("deep read is constant".into());
+    }
+    Ok(())
+}
+
+pub struct Wire {
+    pub frames: Vec<Vec<u8>>,
+    pub vals: Vec<Val>,
+}
+
+/// Produce the wire image of the planned messages with the real blocking sender writing into
+/// an unbounded pipe (single party, direct back-end).
+pub fn wire_of<M: ZooMsg + ?Sized>(plan: &Arc<Plan>) -> Result<Wire, String> {
+    let knobs = Knobs::benign(1 << 30);
+    let mut w = World::new(Decider::from_tape(Default::default()), knobs, false);
+    w.prop = "C06";
+    let sh: Shared = Arc::new(Mutex::new(w));
+    sender_blocking::<M>(sh.clone(), plan.clone());
+    let w = lock(&sh);
+    if let Some(e) = &w.harness_error {
+        return Err(e.clone());
+    }
+    if let Some(v) = &w.violation {
+        return Err(format!("sender-only run: {}", v.detail));
+    }
+    let mut frames = Vec::new();
+    let mut vals = Vec::new();
+    let mut off = 0;
+    for a in &w.attempts {
+        if !matches!(a.result, Some(Ok(()))) || a.accepted != a.frame_len {
+            return Err(format!("sender-only run: send #{} = {:?}", a.msg_index, a.result));
+        }
+        // what counts as "m" is the first size() bytes of the value the sender held
+        frames.push(a.frame.clone());
+        if w.pipe.sink[off..off + a.accepted] != a.frame[..] {
+            return Err("sender-only run: wire differs from frame".into());
+        }
+        off += a.accepted;
+        vals.push(a.val.clone());
+    }
+    Ok(Wire { frames, vals })
+}
+
+struct Setup {
+    plan: Arc<Plan>,
+    wire: Wire,
+    p: usize,
+}
+
+fn setup<M: ZooMsg + ?Sized>(dec: &mut Decider, stats: &mut Stats) -> Result<Setup, String> {
+    let p = dec.weighted(St::Cfg, &[3, 2, 1]);
+    let mut plan = make_plan::<M>(dec, stats, NSpec::Exactly(p as u32 + 2), 2);
+    plan.retain_p = 0;
+    let plan = Arc::new(plan);
+    if plan.msgs.len() != p + 2 {
+        return Err("plan produced fewer messages than requested".into());
+    }
+    let wire = wire_of::<M>(&plan)?;
+    Ok(Setup { plan, wire, p })
+}
+
+pub const FAMILIES: u8 = 4;
+
+fn suffix(fam: u8, follower: &[u8], len: usize, dec: &mut Decider) -> Vec<u8> {
+    match fam {
+        0 => follower.to_vec(),
+        1 => vec![0u8; len],
+        2 => vec![0xFFu8; len],
+        _ => (0..len).map(|_| dec.below(St::Bytes, 256) as u8).collect(),
+    }
+}
+
+/// One value seed -> all its cut and extension scenarios.
+pub fn expand(sc: &Scenario) -> Vec<Scenario> {
+    fn go<M: ZooMsg + ?Sized>(sc: &Scenario) -> Vec<Scenario> {
+        let mut dec = sc.decider();
+        let mut stats: Stats = [0; P::_COUNT as usize];
+        let st = match guarded(|| setup::<M>(&mut dec, &mut stats)) {
+            Ok(Ok(s)) => s,
+            _ => return vec![sc.clone()],
+        };
+        let n = st.wire.frames[st.p].len();
+        let fl = st.wire.frames[st.p + 1].len();
+        let mut out = Vec::new();
+        for k in 0..n {
+            let mut s = sc.clone();
+            s.aux.cut = Some(k);
+            out.push(s);
+        }
+        let lim = 2 * M::ALIGN + 8;
+        for fam in 0..FAMILIES {
+            let top = if fam == 0 { fl.min(lim) } else { lim };
+            for j in 0..=top {
+                let mut s = sc.clone();
+                s.aux.ext = Some((fam, j));
+                out.push(s);
+            }
+            if fam == 0 && fl > top {
+                let mut s = sc.clone();
+                s.aux.ext = Some((0, fl));
+                out.push(s);
+            }
+        }
+        out
+    }
+    use crate::with_zoo_type;
+    with_zoo_type!(sc.type_index, go, sc)
+}
+
+fn viol(oracle: &str, kind: &str, site: &str, detail: String) -> Option<Violation> {
+    Some(Violation { property: "C06".into(), oracle: oracle.into(), kind: kind.into(), site: site.into(), detail })
+}
+
+/// The contract on `validate` itself.
+fn check_validate<M: ZooMsg + ?Sized>(target: &[u8], val: &Val, pad_start: usize, cut: Option<usize>, ext: Option<&[u8]>, stats: &mut Stats) -> Option<Violation> {
+    let n = target.len();
+    if let Some(k) = cut {
+        let bytes = AlignedBytes::from_slice(&target[..k], M::ALIGN.max(1));
+        let r = guarded(|| M::validate(&bytes).map(|_| unsafe { M::from_bytes_unchecked(&bytes) }.read()));
+        match r {
+            Err(c) => return viol("prefix-validate", "panic", &c.site(), format!("validate panicked on the first {} of {} bytes: {}", k, n, c.describe())),
+            Ok(Err(e)) if e.kind == ErrorKind::InsufficientSize => {}
+            Ok(Err(e)) => return viol("prefix-validate", "content-error", "validate", format!("validate on the first {} of {} bytes of a valid message reported {:?}@{} instead of InsufficientSize", k, n, e.kind, e.pos)),
+            Ok(Ok(back)) => {
+                if &back != val {
+                    return viol("prefix-validate", "different-message", "validate", format!("the first {} of {} bytes validate as a different message: {} (sent {})", k, n, back.short(), val.short()));
+                }
+                if k < pad_start {
+                    return viol("prefix-validate", "accepted-short", "validate", format!("the first {} of {} bytes were accepted although used bytes (up to {}) are missing", k, n, pad_start));
+                }
+                stats[P::prefix_accepted_padding_exception as usize] += 1;
+            }
+        }
+    }
+    if let Some(sfx) = ext {
+        let mut all = target.to_vec();
+        all.extend_from_slice(sfx);
+        let bytes = AlignedBytes::from_slice(&all, M::ALIGN.max(1));
+        let r = guarded(|| {
+            M::validate(&bytes).map(|_| {
+                let m = unsafe { M::from_bytes_unchecked(&bytes) };
+                (m.read(), m.size())
+            })
+        });
+        match r {
+            Err(c) => return viol("extension-validate", "panic", &c.site(), format!("validate/read panicked on message + {} extra bytes: {}", sfx.len(), c.describe())),
+            Ok(Err(e)) => return viol("extension-validate", "rejected", "validate", format!("a valid {}-byte message followed by {} further bytes was rejected: {:?}@{}", n, sfx.len(), e.kind, e.pos)),
+            Ok(Ok((back, size))) => {
+                if &back != val {
+                    return viol("extension-validate", "different-message", "validate", format!("message + {} extra bytes reads back {} (sent {})", sfx.len(), back.short(), val.short()));
+                }
+                if size != n {
+                    return viol("extension-validate", "size", "validate", format!("message + {} extra bytes reports size() {} instead of {}", sfx.len(), size, n));
+                }
+            }
+        }
+    }
+    None
+}
+
+pub fn run_c06<M: ZooMsg + ?Sized>(sc: &Scenario, keep_log: bool) -> RunOutput {
+    let mut dec = sc.decider();
+    let mut stats: Stats = [0; P::_COUNT as usize];
+    let st = match guarded(|| setup::<M>(&mut dec, &mut stats)) {
+        Ok(Ok(s)) => s,
+        Ok(Err(e)) => return trivial_output(dec, stats, Some(e), None),
+        Err(c) => return trivial_output(dec, stats, None, viol("setup", "panic", &c.site(), format!("building / sending the messages panicked: {}", c.describe()))),
+    };
+    let p = st.p;
+    let target = st.wire.frames[p].clone();
+    let tval = st.wire.vals[p].clone();
+    let follower = st.wire.frames[p + 1].clone();
+    let fval = st.wire.vals[p + 1].clone();
+    let pad_start = st.plan.msgs[p].pad_start;
+    let n = target.len();
+    let (cut, ext) = match (sc.aux.cut, sc.aux.ext) {
+        (Some(k), _) => (Some(k.min(n.saturating_sub(1))), None),
+        (None, Some((fam, j))) => (None, Some((fam % FAMILIES, j))),
+        // a bare seed (no enumeration index): cut in the middle
+        (None, None) => (Some(n / 2), None),
+    };
+    let sfx: Option<Vec<u8>> = ext.map(|(fam, j)| {
+        let lim = 2 * M::ALIGN + 8;
+        let s = suffix(fam, &follower, lim, &mut dec);
+        s[..j.min(s.len())].to_vec()
+    });
+    // 1. the contract on validate
+    let v1 = check_validate::<M>(&target, &tval, pad_start, cut, sfx.as_deref(), &mut stats);
+    // 2. what the real receiver does with exactly these bytes
+    let mut stream: Vec<u8> = Vec::new();
+    let mut bounds = Vec::new();
+    let mut pads = Vec::new();
+    for i in 0..p {
+        bounds.push((stream.len(), stream.len() + st.wire.frames[i].len()));
+        pads.push(stream.len() + st.plan.msgs[i].pad_start);
+        stream.extend_from_slice(&st.wire.frames[i]);
+    }
+    let front_len = stream.len();
+    bounds.push((front_len, front_len + n));
+    pads.push(front_len + pad_start);
+    match (cut, &sfx) {
+        (Some(k), _) => stream.extend_from_slice(&target[..k]),
+        (None, Some(s)) => {
+            stream.extend_from_slice(&target);
+            stream.extend_from_slice(s);
+        }
+        _ => {}
+    }
+    let is_async = sc.world == WorldKind::Async;
+    let w = run_receiver_only::<M>(sc, dec, stats, st.plan.clone(), stream.clone(), bounds, pads, "C06", keep_log);
+    let mut w = w;
+    if w.violation.is_none() && w.harness_error.is_none() {
+        w.violation = v1.or_else(|| check_receiver(&w, &st, p, &tval, &fval, n, pad_start, cut, ext, follower.len()));
+    }
+    let _ = is_async;
+    let nontrivial = !stream.is_empty();
+    output_of(w, &st.plan, nontrivial, keep_log)
+}
+
+fn trivial_output(dec: Decider, stats: Stats, harness_error: Option<String>, violation: Option<Violation>) -> RunOutput {
+    RunOutput {
+        violation,
+        harness_error,
+        tape: dec.rec.clone(),
+        full_hash: 0,
+        shape_hash: 0,
+        stats,
+        ticks: 0,
+        state_hashes: vec![],
+        nontrivial: false,
+        summary: None,
+        calls: (0, 0, 0),
+        stream_len: 0,
+    }
+}
+
+#[allow(clippy::too_many_arguments)]
+fn check_receiver(w: &World, st: &Setup, p: usize, tval: &Val, fval: &Val, n: usize, pad_start: usize, cut: Option<usize>, ext: Option<(u8, usize)>, follower_len: usize) -> Option<Violation> {
+    // no panic, no hang, only legal outcomes
+    for (i, r) in w.recvs.iter().enumerate() {
+        match &r.outcome {
+            RecvOutcome::Panic(d) => {
+                let site = d.rsplit_once(" @ ").map(|x| x.1.to_string()).unwrap_or_default();
+                return viol("receiver", "panic", &site, format!("recv #{} panicked: {}", i, d));
+            }
+            RecvOutcome::Msg { drop_panic: Some(d), .. } => {
+                let site = d.rsplit_once(" @ ").map(|x| x.1.to_string()).unwrap_or_default();
+                return viol("receiver", "panic", &site, format!("dropping the guard of recv #{} panicked: {}", i, d));
+            }
+            RecvOutcome::InFlight => return viol("receiver", "hang", "recv", format!("recv #{} never returned", i)),
+            _ => {}
+        }
+    }
+    let outs: Vec<&RecvOutcome> = w.recvs.iter().map(|r| &r.outcome).collect();
+    // the whole messages in front are delivered first
+    for i in 0..p {
+        match outs.get(i) {
+            Some(RecvOutcome::Msg { val, size, .. }) if val == &st.wire.vals[i] && *size == st.wire.frames[i].len() => {}
+            other => {
+                let o: String = format!("{:?}", other).chars().take(140).collect();
+                return viol("receiver-front", "mismatch", "recv", format!("whole message #{} in front of the cut was not delivered intact: {}", i, o));
+            }
+        }
+    }
+    let rest = &outs[p.min(outs.len())..];
+    let describe = |o: &[&RecvOutcome]| -> String { o.iter().map(|x| format!("{:?}", x).chars().take(90).collect::<String>()).collect::<Vec<_>>().join(" ; ") };
+    if let Some(k) = cut {
+        // prefix: Closed, or the same message when only trailing padding is missing
+        match rest {
+            [RecvOutcome::Closed] => None,
+            [RecvOutcome::Msg { val, size, occupied, .. }, RecvOutcome::Closed] => {
+                if val != tval {
+                    return viol("receiver-prefix", "different-message", "recv", format!("after {} of {} bytes the receiver returned {} (sent {})", k, n, val.short(), tval.short()));
+                }
+                if k < pad_start {
+                    return viol("receiver-prefix", "accepted-short", "recv", format!("after {} of {} bytes (used bytes end at {}) the receiver returned the message", k, n, pad_start));
+                }
+                if size > occupied {
+                    return viol("receiver-prefix", "over-consume", "recv", format!("guard size() {} exceeds the {} bytes received", size, occupied));
+                }
+                None
+            }
+            other => {
+                let kind = if other.iter().any(|o| matches!(o, RecvOutcome::Parse(_))) { "content-error" } else { "bad-outcome" };
+                viol("receiver-prefix", kind, "recv", format!("stream ends after {} of {} bytes of a valid message; receiver produced: {}", k, n, describe(other)))
+            }
+        }
+    } else if let Some((fam, j)) = ext {
+        // extension: the same message, same size; the next recv starts right behind it
+        match rest.first() {
+            Some(RecvOutcome::Msg { val, size, .. }) => {
+                if val != tval {
+                    return viol("receiver-extension", "different-message", "recv", format!("message followed by {} bytes (family {}) was received as {} (sent {})", j, fam, val.short(), tval.short()));
+                }
+                if *size != n {
+                    return viol("receiver-extension", "size", "recv", format!("message followed by {} bytes (family {}) was consumed as {} bytes instead of {}", j, fam, size, n));
+                }
+            }
+            _ => {
+                return viol("receiver-extension", "not-delivered", "recv", format!("message followed by {} bytes (family {}): receiver produced {}", j, fam, describe(rest)));
+            }
+        }
+        let tail = &rest[1..];
+        if fam == 0 {
+            // the beginning of the next valid message
+            if j >= follower_len {
+                match tail {
+                    [RecvOutcome::Msg { val, size, .. }, RecvOutcome::Closed] if val == fval && *size == follower_len => None,
+                    other => viol("receiver-extension", "follower", "recv", format!("the complete next message was not delivered from byte {}: {}", n, describe(other))),
+                }
+            } else {
+                match tail {
+                    [RecvOutcome::Closed] => None,
+                    [RecvOutcome::Msg { val, .. }, RecvOutcome::Closed] if val == fval && j >= st.plan.msgs[p + 1].pad_start => None,
+                    other => {
+                        let kind = if other.iter().any(|o| matches!(o, RecvOutcome::Parse(_))) { "content-error" } else { "bad-outcome" };
+                        viol("receiver-extension", kind, "recv", format!("{} of {} bytes of the next valid message: receiver produced {}", j, follower_len, describe(other)))
+                    }
+                }
+            }
+        } else {
+            None
+        }
+    } else {
+        None
+    }
+}
+
+/// Run only the receiver over a pre-loaded stream (the writer has already gone away).
+#[allow(clippy::too_many_arguments)]
+pub fn run_receiver_only<M: ZooMsg + ?Sized>(
+    sc: &Scenario,
+    mut dec: Decider,
+    stats: Stats,
+    plan: Arc<Plan>,
+    stream: Vec<u8>,
+    bounds: Vec<(usize, usize)>,
+    pads: Vec<usize>,
+    prop: &'static str,
+    keep_log: bool,
+) -> World {
+    let is_async = sc.world == WorldKind::Async;
+    let mut knobs = draw_knobs(if is_async { "C08" } else { "C07" }, sc.world, &mut dec, &plan);
+    knobs.pipe_cap = stream.len() + 1;
+    if prop == "C10" {
+        // every prefix length should be validated often: over-weight 1-byte reads
+        if dec.chance(St::Cfg, 1, 3) {
+            knobs.rchunk_mode = 1;
+        }
+    }
+    let mut world = World::new(dec, knobs, keep_log);
+    world.stats = stats;
+    world.prop = prop;
+    world.align = M::ALIGN;
+    world.frame_bounds = bounds;
+    world.frame_pad_start = pads;
+    world.pipe.sink = stream.clone();
+    world.pipe.accepted_total = stream.len();
+    world.pipe.buf = stream.into();
+    world.pipe.writer_closed = true;
+    let sh: Shared = Arc::new(Mutex::new(world));
+    if is_async {
+        let t: Task = Box::pin(receiver_async::<M>(sh.clone(), plan.clone()));
+        let caught = run_async(&sh, vec![None, Some(t)]);
+        fold_async_panics(&sh, caught);
+    } else {
+        receiver_blocking::<M>(sh.clone(), plan.clone());
+    }
+    match Arc::try_unwrap(sh) {
+        Ok(m) => m.into_inner().unwrap_or_else(|p| p.into_inner()),
+        Err(_) => panic!("world still shared after run"),
+    }
+}
